@@ -48,7 +48,7 @@ pub fn lattice(dim: usize, scale: f32) -> Vec<Vec<f32>> {
     out
 }
 
-fn true_distance(metric: DistanceMetric, q: &[f32], v: &[f32]) -> f64 {
+pub fn true_distance(metric: DistanceMetric, q: &[f32], v: &[f32]) -> f64 {
     match metric {
         DistanceMetric::Euclidean => q.iter().zip(v).map(|(a, b)| ((*a as f64) - (*b as f64)).powi(2)).sum::<f64>().sqrt(),
         _ => {
